@@ -202,6 +202,8 @@ def run_case(h):
     for c in seq:
         if c.get("interlude") and c is not seq[0]:
             labels.extend(mw.interlude(p, w, c["interlude"], False))
+            if labels[-1] == "manager-stopped":
+                break
             labels.append("interlude")
         out = run_one(c, w, p)
         labels.extend(out.labels)
